@@ -1,4 +1,227 @@
-(* C11 -- sensitivity analyses agree with their definitions.  Statements only; proofs in Proofs/SensitivityProofs.v. *)
+(* C11 -- sensitivity analyses agree with their definitions.  Statements only; proofs in Proofs/SensitivityProofs.v.
+
+   Reading guide.  c: the original circuit (closed, acyclic, all free nodes primary inputs = lint-clean, blackbox-free, no 'x').
+   SC / SUB: the sub-circuit the transform copies (sub_of SC c: same types and fan-ins on a fan-in closed node set).
+   sens_shape / sv_shape: "T contains the prefixed copies, ties, flipped node, xor compares, sat / popcount hook-up" stated by
+   look-ups in T.  The shape is what the model functions of Model/Sensitivity.v build and what tx.py builds: `agree` of
+   Run/Run_C11.v evaluates sens_shapeb / sv_shapeb (sound: *_shapeb_sound) on every recorded implementation output, and
+   compares it with the model output.  So the _partial theorems below are full-strength statements about every graph of that
+   shape; what is not proved for all inputs is only "the model function always produces that shape" (see the _full statements). *)
+From Coq Require Import QArith.
 From stdpp Require Import strings gmap sets.
 From CG Require Import Model.Sensitivity Proofs.SensitivityProofs.
 Open Scope string_scope.
+Open Scope nat_scope.
+
+Definition wf (C : Circuit) : Prop := bb_free C ∧ closed (c_g C) ∧ acyclic (c_g C) ∧ inputs_only (c_g C).
+Definition selected (C : Circuit) (Eo : option (list string)) : list string :=
+  match Eo with Some (e :: l) => e :: l | _ => elements (outputs (c_g C)) end.
+
+(* ---- full statements over the model functions (visible, NOT claimed; decided per generated case by the oracle) ---- *)
+Definition sensitization_spec_full : Prop := ∀ C n Eo T, wf C → n ∈ dom (c_g C) →
+  sensitization_transform C n Eo = Ok T →
+  ∀ v, consistent (c_g T) v → (v "sat" = true ↔ sens_at (c_g C) n (selected C Eo) v).
+Definition sensitivity_transform_spec_full : Prop := ∀ C n ord PC W T, wf C →
+  sensitivity_transform C n ord PC = Ok T → clog2 (length ord + 1) = Ok W → popcount_correct (c_g PC) (length ord) W →
+  ∀ v, consistent (c_g T) v →
+    (∀ s, s ∈ ord → v ("dif_out_" ++ s) = true ↔ flips (c_g C) n s v) ∧
+    sen_bits v W = take_bits W (count (c_g C) n ord v).
+
+(* ---- sensitization_transform: sat = 1 iff inverting n changes a selected endpoint, for every graph of the shape ---- *)
+Theorem sensitization_spec_partial : ∀ c SC n (E : gset string) T,
+  closed c → acyclic c → inputs_only c → sub_of SC c → n ∈ dom SC → E ⊆ dom SC → sens_shape SC n E T →
+  ∀ v, consistent T v → (v "sat" = true ↔ sens_at c n (elements E) v).
+Proof. exact sensitization_shape_spec. Qed.
+Print Assumptions sensitization_spec_partial.
+
+(* the flipped-node lemma: after `disconnect fan-in; set_type not; connect c0_n` the node is the complement of its driver *)
+Theorem flipped_node : ∀ (g : circuit) x y o (v : val),
+  consistent (<[x := mk_node Not o {[y]}]> g) v ↔ consistent (delete x g) v ∧ v x = negb (v y).
+Proof. exact flip_node_consistent. Qed.
+Print Assumptions flipped_node.
+(* ... and in context: the second copy computes c with n inverted *)
+Theorem second_copy_inverted : ∀ c n (E : gset string) T, closed c → acyclic c → inputs_only c → n ∈ dom c → sens_shape c n E T →
+  ∀ v, consistent T v → ∀ x, x ∈ dom c → v ("c0_" ++ x) = evalc c v x ∧ v ("c1_" ++ x) = inverted c n v x.
+Proof. intros c n E T ???? Hsh v Hv x Hx. split; [by eapply c0_values|by eapply c1_values]. Qed.
+Print Assumptions second_copy_inverted.
+(* the xor-compare lemma *)
+Theorem xor_compare : ∀ (v : val) a b, a ≠ b → gate_val Xor v {[a; b]} = xorb (v a) (v b).
+Proof. exact xor2_val. Qed.
+Print Assumptions xor_compare.
+
+(* ---- sensitivity_transform: dif_out_s = 1 iff flipping s flips n; sen_out = binary digits of the count (popcount: C13) ---- *)
+Theorem sensitivity_transform_spec_partial : ∀ c SUB n sp PC W T,
+  closed c → acyclic c → inputs_only c → sub_of SUB c → n ∈ dom SUB → sv_shape SUB n sp PC W T →
+  ∀ v, consistent T v →
+    (∀ s, s ∈ sp → v ("dif_out_" ++ s) = true ↔ flips c n s v) ∧
+    (popcount_correct PC (length sp) W → sen_bits v W = take_bits W (count c n sp v)).
+Proof. exact sensitivity_shape_spec. Qed.
+Print Assumptions sensitivity_transform_spec_partial.
+
+(* ---- props.sensitivity ---- *)
+(* the bit-width argument: w = clog2 m; the un-truncated digits of k <= m padded to w pin a count c <= m down to k, except that
+   k = 0 also admits c = m when m = 2^w (top bit unconstrained) -- harmless in a descending search, since m was refuted first *)
+Theorem width_argument : ∀ m w k c, clog2 m = Ok w → k ≤ m → c ≤ m →
+  matches (int_to_bin_le k w) c → c = k ∨ (k = 0 ∧ c = m).
+Proof. intros m w k c (_ & H & _)%clog2_spec. by apply matches_enc. Qed.
+Print Assumptions width_argument.
+(* no assumption names a sen_out bit that does not exist *)
+Theorem width_fits : ∀ m w W k, clog2 m = Ok w → clog2 (m + 1) = Ok W → k ≤ m → length (int_to_bin_le k w) ≤ W.
+Proof. exact width_ok. Qed.
+Print Assumptions width_fits.
+Theorem clog2_correct : ∀ m w, clog2 m = Ok w → 1 ≤ m ∧ m ≤ 2 ^ w ∧ (w = 0 ∨ 2 ^ (w - 1) < m).
+Proof. exact clog2_spec. Qed.
+Print Assumptions clog2_correct.
+
+(* the descending search returns the maximum of the encoded count, relative to a sound and complete solver *)
+Theorem sensitivity_search_spec : ∀ (T : circuit) (m w : nat) (cnt : val → nat) (solve : list (string * bool) → bool),
+  (∀ k, k ≤ m → let asm := asm_of (int_to_bin_le k w) in
+     solve asm = true ↔ ∃ v, consistent T v ∧ Forall (λ p : string * bool, v p.1 = p.2) asm) →
+  clog2 m = Ok w →
+  (∀ v, consistent T v → cnt v ≤ m) →
+  (∀ v k, consistent T v → k ≤ m →
+     sen_bits v (length (int_to_bin_le k w)) = take_bits (length (int_to_bin_le k w)) (cnt v)) →
+  (∃ v, consistent T v) →
+  ∃ k, search solve w m = Ok k ∧ (∃ v, consistent T v ∧ cnt v = k) ∧ ∀ v, consistent T v → cnt v ≤ k.
+Proof. exact search_max. Qed.
+Print Assumptions sensitivity_search_spec.
+
+(* composed with the transform theorem: on every graph of the sensitivity-circuit shape the search returns the sensitivity *)
+Theorem sensitivity_spec_partial : ∀ (solve : list (string * bool) → bool) c SUB n sp PC W w T,
+  closed c → acyclic c → inputs_only c → sub_of SUB c → n ∈ dom SUB → inputs SUB = list_to_set sp →
+  sv_shape SUB n sp PC W T → popcount_correct PC (length sp) W →
+  closed T → acyclic T → free_nodes T = list_to_set sp →
+  1 ≤ length sp → clog2 (length sp) = Ok w → clog2 (length sp + 1) = Ok W →
+  (∀ k, k ≤ length sp → let asm := asm_of (int_to_bin_le k w) in
+     solve asm = true ↔ ∃ v, consistent T v ∧ Forall (λ p : string * bool, v p.1 = p.2) asm) →
+  ∃ k, search solve w (length sp) = Ok k ∧ is_sensitivity c n sp k.
+Proof. exact sensitivity_spec. Qed.
+Print Assumptions sensitivity_spec_partial.
+(* the early exit: a primary input has sensitivity 1 *)
+Theorem sensitivity_of_input : ∀ c n i, c !! n = Some i → n_ty i = Input → is_sensitivity c n [n] 1.
+Proof. exact sensitivity_input. Qed.
+Print Assumptions sensitivity_of_input.
+
+(* ---- props.influence / avg_sensitivity / sensitize, relative to exact model counting / a sound+complete solver and the
+        specification of the sensitization circuit (sens_spec; provided by sens_spec_from_shape) ---- *)
+Theorem sens_spec_from_shape : ∀ c SC x (E : gset string) sp T,
+  closed c → acyclic c → inputs_only c → sub_of SC c → x ∈ dom SC → E ⊆ dom SC →
+  sens_shape SC x E T → closed T → acyclic T →
+  free_nodes T = list_to_set sp → startpoints T = list_to_set sp → inputs SC = list_to_set sp →
+  sens_spec c x (elements E) sp T.
+Proof. exact sens_spec_of_shape. Qed.
+Print Assumptions sens_spec_from_shape.
+(* why influence may use the sensitization circuit of (startpoint s, endpoint n) *)
+Theorem invert_input_is_flip : ∀ c s n ρ i, c !! s = Some i → n_ty i = Input → n_fi i = ∅ → sens_at c s [n] ρ ↔ flips c n s ρ.
+Proof. exact sens_at_input. Qed.
+Print Assumptions invert_input_is_flip.
+
+Definition sens_circuits_ok (C : Circuit) (n : string) : Prop :=
+  ∀ s T, s ∈ cone_startpoints (c_g C) n → sensitization_transform C s (Some [n]) = Ok T →
+    (∃ i, c_g C !! s = Some i ∧ n_ty i = Input ∧ n_fi i = ∅) ∧
+    sens_spec (c_g C) s [n] (elements (cone_startpoints (c_g C) n)) (c_g T).
+Theorem influence_spec : ∀ mc C n out, mc_exact mc → sens_circuits_ok C n → influence mc C n = Ok out →
+  out = (λ s, (s, influence_def (c_g C) n (elements (cone_startpoints (c_g C) n)) s)) <$> elements (cone_startpoints (c_g C) n).
+Proof. exact influence_model_spec. Qed.
+Print Assumptions influence_spec.
+Theorem avg_sensitivity_spec : ∀ mc C n a, mc_exact mc → sens_circuits_ok C n → avg_sensitivity mc C n = Ok a →
+  a = avg_sensitivity_def (c_g C) n (elements (cone_startpoints (c_g C) n)).
+Proof. exact avg_sensitivity_model_spec. Qed.
+Print Assumptions avg_sensitivity_spec.
+Theorem sensitize_spec : ∀ (solve : circuit → list (string * bool) → option val) C n E sp T r,
+  (∀ g asm v, solve g asm = Some v → consistent g v ∧ Forall (λ p : string * bool, v p.1 = p.2) asm) →
+  (∀ g asm, solve g asm = None → ¬ ∃ v, consistent g v ∧ Forall (λ p : string * bool, v p.1 = p.2) asm) →
+  sensitization_transform C n None = Ok T → sens_spec (c_g C) n E sp (c_g T) →
+  sensitize solve C n = Ok r →
+  match r with
+  | Some μ => (fst <$> μ) = elements (startpoints (c_g T)) ∧
+              ∃ ρ : val, Forall (λ p : string * bool, ρ p.1 = p.2) μ ∧ sens_at (c_g C) n E ρ
+  | None => ∀ ρ, ¬ sens_at (c_g C) n E ρ
+  end.
+Proof. exact sensitize_model_spec. Qed.
+Print Assumptions sensitize_spec.
+
+(* ---- trusted-base reducers ---- *)
+(* evalc (size-derived fuel) IS the consistent valuation of a closed acyclic circuit: the definitions are well defined *)
+Theorem evalc_is_consistent : ∀ c a, closed c → acyclic c → consistent c (evalc c a).
+Proof. exact evalc_consistent. Qed.
+Print Assumptions evalc_is_consistent.
+(* brute force over the free nodes is a sound and complete solver: the solver hypotheses above are satisfiable *)
+Theorem solver_exists : ∀ T free asm, closed T → acyclic T → free_nodes T = list_to_set free →
+  (∀ p, p ∈ asm → p.1 ∈ dom T) →
+  bf_solve T free asm = true ↔ ∃ v, consistent T v ∧ Forall (λ p : string * bool, v p.1 = p.2) asm.
+Proof. exact bf_solve_ok. Qed.
+Print Assumptions solver_exists.
+
+Ltac by_bool := match goal with |- ?P => apply (bool_decide_eq_true_1 P); vm_compute; reflexivity end.
+
+(* ---- non-vacuity: concrete circuits satisfy the hypotheses; the transform models produce the shapes ---- *)
+Definition ex_c : Circuit :=
+  {| c_name := "t"; c_bbs := ∅;
+     c_g := {[ "a" := mk_node Input false ∅ ]} ∪ {[ "b" := mk_node Input false ∅ ]} ∪
+            {[ "g" := mk_node And false {[ "a"; "b" ]} ]} ∪ {[ "o" := mk_node Not true {[ "g" ]} ]} |}.
+Definition ex_T : circuit := match sensitization_transform ex_c "g" None with Ok T => c_g T | _ => ∅ end.
+Example ex_wf : closed (c_g ex_c) ∧ acyclic (c_g ex_c) ∧ inputs_only (c_g ex_c).
+Proof.
+  split; [apply closedb_spec; vm_compute; reflexivity|]. split; [apply acyclicb_sound; vm_compute; reflexivity|].
+  apply inputs_onlyb_sound; vm_compute; reflexivity.
+Qed.
+Example ex_shape : sens_shape (c_g ex_c) "g" {[ "o" ]} ex_T.
+Proof. apply sens_shapeb_sound. vm_compute. reflexivity. Qed.
+(* the theorem instantiated: a closed statement about the model's output for this circuit *)
+Example ex_sensitization : ∀ v, consistent ex_T v → (v "sat" = true ↔ sens_at (c_g ex_c) "g" ["o"] v).
+Proof.
+  destruct ex_wf as (Hcl & Hac & Hio). intros v Hv.
+  assert (Hsub : sub_of (c_g ex_c) (c_g ex_c)) by (apply sub_ofb_sound; vm_compute; reflexivity).
+  assert (Hn : "g" ∈ dom (c_g ex_c)) by (apply elem_of_dom; eexists; vm_compute; reflexivity).
+  assert (HE : ({[ "o" ]} : gset string) ⊆ dom (c_g ex_c)).
+  { intros e ->%elem_of_singleton. apply elem_of_dom; eexists; vm_compute; reflexivity. }
+  pose proof (sensitization_spec_partial _ _ "g" {[ "o" ]} ex_T Hcl Hac Hio Hsub Hn HE ex_shape v Hv) as H.
+  by rewrite elements_singleton in H.
+Qed.
+(* both sides of the equivalence are inhabited: a = b = 1 sensitizes g to o, and sat can be 0 *)
+Example ex_sensitizing : sens_at (c_g ex_c) "g" ["o"] (λ _, true).
+Proof. exists "o". split; [by left|]. vm_compute. discriminate. Qed.
+
+(* the sensitivity circuit of g = not a, with popcount(1) = (in_0 -> out_0) *)
+Definition ex_c2 : Circuit :=
+  {| c_name := "t"; c_bbs := ∅;
+     c_g := {[ "a" := mk_node Input false ∅ ]} ∪ {[ "g" := mk_node Not true {[ "a" ]} ]} |}.
+Definition ex_pc : Circuit :=
+  {| c_name := "popcount"; c_bbs := ∅;
+     c_g := {[ "in_0" := mk_node Input false ∅ ]} ∪ {[ "out_0" := mk_node Buf true {[ "in_0" ]} ]} |}.
+Definition ex_T2 : circuit := match sensitivity_transform ex_c2 "g" ["a"] ex_pc with Ok T => c_g T | _ => ∅ end.
+Example ex_pc_correct : popcount_correct (c_g ex_pc) 1 1.
+Proof.
+  intros u Hu. specialize (Hu "out_0" (mk_node Buf true {[ "in_0" ]}) eq_refl).
+  unfold node_ok, is_free in Hu. simpl in Hu. rewrite bool_decide_eq_false_2 in Hu by set_solver.
+  rewrite buf_val in Hu.
+  assert (H0 : "out_" ++ pretty 0 = "out_0") by (vm_compute; reflexivity).
+  assert (H1 : "in_" ++ pretty 0 = "in_0") by (vm_compute; reflexivity).
+  cbn [seq fmap list_fmap]. rewrite H0, filter_cons, filter_nil, H1, Hu.
+  destruct (u "in_0"); vm_compute; reflexivity.
+Qed.
+Example ex_sv_shape : sv_shape (c_g ex_c2) "g" ["a"] (c_g ex_pc) 1 ex_T2.
+Proof. apply sv_shapeb_sound. vm_compute. reflexivity. Qed.
+(* the whole chain for this circuit: the search over the model's sensitivity circuit with the brute-force solver returns a
+   number that is the sensitivity of g (all hypotheses of sensitivity_spec_partial discharged) *)
+Example ex_sensitivity : ∃ k, search (bf_solve ex_T2 ["a"]) 0 1 = Ok k ∧ is_sensitivity (c_g ex_c2) "g" ["a"] k.
+Proof.
+  assert (HclT : closed ex_T2) by (apply closedb_spec; vm_compute; reflexivity).
+  assert (HacT : acyclic ex_T2) by (apply acyclicb_sound; vm_compute; reflexivity).
+  assert (HfT : free_nodes ex_T2 = list_to_set ["a"]) by by_bool.
+  assert (Hcl : closed (c_g ex_c2)) by (apply closedb_spec; vm_compute; reflexivity).
+  assert (Hac : acyclic (c_g ex_c2)) by (apply acyclicb_sound; vm_compute; reflexivity).
+  assert (Hio : inputs_only (c_g ex_c2)) by (apply inputs_onlyb_sound; vm_compute; reflexivity).
+  assert (Hsub : sub_of (c_g ex_c2) (c_g ex_c2)) by (apply sub_ofb_sound; vm_compute; reflexivity).
+  assert (Hn : "g" ∈ dom (c_g ex_c2)) by (apply elem_of_dom; eexists; vm_compute; reflexivity).
+  assert (Hin : inputs (c_g ex_c2) = list_to_set ["a"]) by by_bool.
+  assert (Hm : 1 ≤ length ["a"]) by (simpl; lia).
+  assert (Hw : clog2 (length ["a"]) = Ok 0) by (vm_compute; reflexivity).
+  assert (HW : clog2 (length ["a"] + 1) = Ok 1) by (vm_compute; reflexivity).
+  refine (sensitivity_spec_partial (bf_solve ex_T2 ["a"]) (c_g ex_c2) (c_g ex_c2) "g" ["a"] (c_g ex_pc) 1 0 ex_T2
+            Hcl Hac Hio Hsub Hn Hin ex_sv_shape ex_pc_correct HclT HacT HfT Hm Hw HW _).
+  intros k Hk asm. apply bf_solve_ok; [exact HclT|exact HacT|exact HfT|].
+  assert (k = 0 ∨ k = 1) as [->| ->] by (simpl in Hk; lia);
+    intros p [->|[]%elem_of_nil]%elem_of_cons; apply elem_of_dom; eexists; vm_compute; reflexivity.
+Qed.
